@@ -568,6 +568,29 @@ def rule_f8(ctx):
                                 "a child of a literal is parsed with parse_expr whatever only_literal_children says: into_literal panics on the non-literal child", t["sp"]))
     if (n < 5) and not res.findings:
         raise AnchorMissing("F8: expected the child sites of parse_literal, found %d" % n)
+    # literal mode is inherited: the helper(s) through which parse_literal parses the children of a literal in literal mode call it
+    # back with the flag set (a `false` there lets non-literal expressions in from the second nesting level on)
+    m = 0
+    for b, t in body.calls():
+        h = mir.callee(t) or ""
+        if h == f["id"] or not ctx.has_fn(h) or ctx.fns[h]["sp"][0] != f["sp"][0] or C02._dominated_by_edges(body, edges, b):
+            continue
+        hb = ctx.body(h)
+        for hb_, ht in hb.calls():
+            if mir.callee(ht) != f["id"] or flag - 1 >= len(ht["args"]):
+                continue
+            m += 1
+            a = ht["args"][flag - 1]
+            if a["k"] == "const" and a.get("val") == 1:
+                res.ok({"site": "%s calls parse_literal back at line %d" % (mir.last_seg(h), ht["sp"][1]), "verdict": "with only_literal_children = true"})
+            elif a["k"] in ("copy", "move") and all(r[0] == "arg" and hb.locals[r[1]]["ty"] == "bool" for (r, p) in hb.trace_operand(a)):
+                res.ok({"site": "%s calls parse_literal back at line %d" % (mir.last_seg(h), ht["sp"][1]), "verdict": "hands its own flag on"})
+            else:
+                res.bad(Finding("F8", h, "literal mode is not inherited by nested literals",
+                                "parse_literal is called back with only_literal_children = %s: from the second nesting level on a child may be any expression "
+                                "(`[(1u8 + 1u8, 2u8), (3u8, 4u8)]` as an argument type-checks, then into_literal panics on the non-literal child)" % (a.get("repr") or a.get("val")), ht["sp"]))
+    if not m and not res.findings:
+        raise AnchorMissing("F8: no helper calls parse_literal back for the children of a literal")
     return res
 
 
